@@ -26,6 +26,10 @@ from .values import (
     js_pow,
     norm_number,
     native_result,
+    to_integer,
+    clamp_index,
+    relative_index,
+    JS_WHITESPACE,
 )
 from .errors import (
     JSError,
@@ -287,6 +291,9 @@ class VM:
         except JSSyntaxError as e:
             # Raised by built-ins that parse at run time (JSON.parse, RegExp)
             self._handle_python_exception("SyntaxError", str(e))
+        except RegexTimeoutError:
+            # The deadline passed while a built-in was matching a regular expression
+            raise TimeLimitError("Regex execution timeout")
         except RegexStackOverflow:
             # The matcher's backtrack stack budget is used up
             self._handle_python_exception(
@@ -1893,97 +1900,124 @@ class VM:
     def _make_string_method(self, s: str, method: str) -> Any:
         """Create a bound string method."""
 
+        length = len(s)
+
+        def arg(args, i):
+            return args[i] if len(args) > i else UNDEFINED
+
         def charAt(*args):
-            idx = int(to_number(args[0])) if args else 0
-            if 0 <= idx < len(s):
-                return s[idx]
+            idx = to_integer(arg(args, 0))
+            if 0 <= idx < length:
+                return s[int(idx)]
             return ""
 
         def charCodeAt(*args):
-            idx = int(to_number(args[0])) if args else 0
-            if 0 <= idx < len(s):
-                return ord(s[idx])
+            idx = to_integer(arg(args, 0))
+            if 0 <= idx < length:
+                return ord(s[int(idx)])
             return float("nan")
 
         def indexOf(*args):
-            search = to_string(args[0]) if args else ""
-            start = int(to_number(args[1])) if len(args) > 1 else 0
-            if start < 0:
-                start = 0
+            search = to_string(arg(args, 0))
+            start = clamp_index(arg(args, 1), length, 0)
             return s.find(search, start)
 
         def lastIndexOf(*args):
-            search = to_string(args[0]) if args else ""
-            end = int(to_number(args[1])) if len(args) > 1 else len(s)
-            # Python's rfind with end position
-            return s.rfind(search, 0, end + len(search))
+            search = to_string(arg(args, 0))
+            pos = to_number(arg(args, 1))
+            # NaN (including a missing argument) means: search from the end
+            start = length if math.isnan(pos) else clamp_index(pos, length, length)
+            return s.rfind(search, 0, start + len(search))
 
         def substring(*args):
-            start = int(to_number(args[0])) if args else 0
-            end = int(to_number(args[1])) if len(args) > 1 else len(s)
-            # Clamp and swap if needed
-            if start < 0:
-                start = 0
-            if end < 0:
-                end = 0
+            start = clamp_index(arg(args, 0), length, 0)
+            end = clamp_index(arg(args, 1), length, length)
             if start > end:
                 start, end = end, start
             return s[start:end]
 
         def slice_fn(*args):
-            start = int(to_number(args[0])) if args else 0
-            end = int(to_number(args[1])) if len(args) > 1 else len(s)
-            # Handle negative indices
-            if start < 0:
-                start = max(0, len(s) + start)
-            if end < 0:
-                end = max(0, len(s) + end)
+            start = relative_index(arg(args, 0), length, 0)
+            end = relative_index(arg(args, 1), length, length)
             return s[start:end]
+
+        def regexp_of(value):
+            """The regular expression a string method works with: the RegExp argument itself,
+            or new RegExp(value) (undefined means the empty pattern)."""
+            if isinstance(value, JSRegExp):
+                return value
+            poll_callback = None
+            if self.time_limit is not None:
+                poll_callback = (
+                    lambda: time.monotonic() - self.start_time > self.time_limit
+                )
+            source = "(?:)" if value is UNDEFINED else to_string(value)
+            return JSRegExp(source, "", poll_callback)
+
+        def match_at(regexp, pos, sticky):
+            """One match attempt of regexp on s: anchored at pos, or searching from pos."""
+            try:
+                vm_regex = regexp._internal._create_vm()
+                if sticky:
+                    return vm_regex.match(s, pos)
+                return vm_regex.search(s, pos)
+            except RegexTimeoutError:
+                raise TimeLimitError("Regex execution timeout")
+
+        def captures_of(result, regexp):
+            count = regexp._internal._capture_count
+            return [result[i] for i in range(1, count)]
+
+        def all_matches(regexp):
+            """Matches of a global regexp from the start, the way @@match/@@replace walk them
+            (an empty match advances by one); lastIndex ends up 0."""
+            regexp.lastIndex = 0
+            sticky = "y" in regexp._flags
+            pos = 0
+            found = []
+            while pos <= length:
+                result = match_at(regexp, pos, sticky)
+                if result is None:
+                    break
+                found.append(result)
+                end = result.index + len(result[0])
+                pos = end if end > result.index else end + 1
+            return found
 
         def split(*args):
             sep = args[0] if args else UNDEFINED
-            limit = int(to_number(args[1])) if len(args) > 1 else -1
+            # limit is ToUint32; a missing/undefined limit means "no limit"
+            limit = -1 if arg(args, 1) is UNDEFINED else self._to_uint32(args[1])
 
             if sep is UNDEFINED:
                 parts = [s]
             elif isinstance(sep, JSRegExp):
-                # Split with regex using microjs.regex
-                try:
-                    regex_internal = sep._internal
-                    parts = []
-                    last_end = 0
-                    pos = 0
-                    capture_count = regex_internal._capture_count
-
-                    while pos <= len(s):
-                        # Create fresh regex VM for each search to avoid lastIndex issues
-                        vm_regex = regex_internal._create_vm()
-                        result = vm_regex.search(s, pos)
-                        if result is None:
-                            break
-
-                        # Add the part before this match
-                        parts.append(s[last_end : result.index])
-
-                        # Add captured groups (JS behavior) - capture_count includes group 0
-                        for i in range(1, capture_count):
-                            group_val = result[i]
+                # Walk the string with anchored matches (SplitMatcher); a match that is
+                # empty at the current split point does not split
+                parts = []
+                if length == 0:
+                    if match_at(sep, 0, True) is None:
+                        parts.append(s)
+                else:
+                    p = 0
+                    q = 0
+                    while q < length:
+                        result = match_at(sep, q, True)
+                        end = None if result is None else q + len(result[0])
+                        if end is None or end == p:
+                            q += 1
+                            continue
+                        parts.append(s[p:q])
+                        for group_val in captures_of(result, sep):
                             parts.append(
                                 group_val if group_val is not None else UNDEFINED
                             )
-
-                        # Move past the match
-                        match_len = len(result[0]) if result[0] else 0
-                        last_end = result.index + match_len
-                        # Advance position (at least by 1 to avoid infinite loop on zero-width)
-                        pos = last_end if match_len > 0 else result.index + 1
-
-                    # Add remainder after last match
-                    parts.append(s[last_end:])
-                except RegexTimeoutError:
-                    raise TimeLimitError("Regex execution timeout")
+                        p = q = end
+                    parts.append(s[p:])
             elif to_string(sep) == "":
                 parts = list(s)
+            elif s == "":
+                parts = [""]
             else:
                 parts = s.split(to_string(sep))
 
@@ -2000,13 +2034,13 @@ class VM:
             return s.upper()
 
         def trim(*args):
-            return s.strip()
+            return s.strip(JS_WHITESPACE)
 
         def trimStart(*args):
-            return s.lstrip()
+            return s.lstrip(JS_WHITESPACE)
 
         def trimEnd(*args):
-            return s.rstrip()
+            return s.rstrip(JS_WHITESPACE)
 
         def concat(*args):
             result = s
@@ -2015,218 +2049,162 @@ class VM:
             return result
 
         def repeat(*args):
-            count = int(to_number(args[0])) if args else 0
-            if count < 0:
+            count = to_integer(arg(args, 0))
+            if count < 0 or count == float("inf"):
                 raise JSRangeError("Invalid count value")
-            return s * count
+            return s * int(count)
+
+        def search_string(args, what):
+            if isinstance(arg(args, 0), JSRegExp):
+                raise JSTypeError(
+                    f"First argument to String.prototype.{what} must not be a regular expression"
+                )
+            return to_string(arg(args, 0))
 
         def startsWith(*args):
-            search = to_string(args[0]) if args else ""
-            pos = int(to_number(args[1])) if len(args) > 1 else 0
-            return s[pos:].startswith(search)
+            search = search_string(args, "startsWith")
+            pos = clamp_index(arg(args, 1), length, 0)
+            return s.startswith(search, pos)
 
         def endsWith(*args):
-            search = to_string(args[0]) if args else ""
-            length = int(to_number(args[1])) if len(args) > 1 else len(s)
-            return s[:length].endswith(search)
+            search = search_string(args, "endsWith")
+            end = clamp_index(arg(args, 1), length, length)
+            return s[:end].endswith(search)
 
         def includes(*args):
-            search = to_string(args[0]) if args else ""
-            pos = int(to_number(args[1])) if len(args) > 1 else 0
+            search = search_string(args, "includes")
+            pos = clamp_index(arg(args, 1), length, 0)
             return search in s[pos:]
 
-        def replace(*args):
-            pattern = args[0] if args else ""
-            replacement = to_string(args[1]) if len(args) > 1 else "undefined"
+        def expand(template, matched, position, captures):
+            """GetSubstitution: $$ $& $` $' $n $nn in a replacement template."""
+            out = []
+            i = 0
+            n = len(template)
+            while i < n:
+                ch = template[i]
+                if ch == "$" and i + 1 < n:
+                    nxt = template[i + 1]
+                    if nxt == "$":
+                        out.append("$")
+                        i += 2
+                        continue
+                    if nxt == "&":
+                        out.append(matched)
+                        i += 2
+                        continue
+                    if nxt == "`":
+                        out.append(s[:position])
+                        i += 2
+                        continue
+                    if nxt == "'":
+                        out.append(s[position + len(matched) :])
+                        i += 2
+                        continue
+                    if "0" <= nxt <= "9":
+                        two = template[i + 1 : i + 3]
+                        if len(two) == 2 and "0" <= two[1] <= "9" and 1 <= int(two) <= len(captures):
+                            out.append(captures[int(two) - 1] or "")
+                            i += 3
+                            continue
+                        if 1 <= int(nxt) <= len(captures):
+                            out.append(captures[int(nxt) - 1] or "")
+                            i += 2
+                            continue
+                out.append(ch)
+                i += 1
+            return "".join(out)
 
-            if isinstance(pattern, JSRegExp):
-                # Replace with regex using microjs.regex
-                try:
-                    regex_internal = pattern._internal
-                    is_global = "g" in pattern._flags
-                    capture_count = regex_internal._capture_count
+        def replacement_for(replacer, matched, position, captures):
+            if isinstance(replacer, JSFunction) or (
+                callable(replacer) and not isinstance(replacer, str)
+            ):
+                call_args = [matched]
+                call_args += [UNDEFINED if c is None else c for c in captures]
+                call_args += [position, s]
+                return to_string(self._call_callback(replacer, call_args))
+            return expand(replacer, matched, position, captures)
 
-                    # Handle special replacement patterns
-                    def handle_replacement(match_result):
-                        result = replacement
-                        # Handle $$ escape first (must be done before other $ patterns)
-                        result = result.replace("$$", "\x00DOLLAR\x00")
-                        # $& - the matched substring
-                        result = result.replace("$&", match_result[0] or "")
-                        # $n - nth captured group
-                        for i in range(1, 10):
-                            if i <= capture_count:
-                                result = result.replace(f"${i}", match_result[i] or "")
-                            else:
-                                result = result.replace(f"${i}", "")
-                        # Restore escaped dollars
-                        result = result.replace("\x00DOLLAR\x00", "$")
-                        return result
+        def as_replacer(value):
+            if isinstance(value, JSFunction) or (
+                callable(value) and not isinstance(value, JSObject)
+            ):
+                return value
+            return to_string(value)
 
-                    result_parts = []
-                    last_end = 0
-                    pos = 0
-
-                    while pos <= len(s):
-                        # Create fresh regex VM for each search
-                        vm_regex = regex_internal._create_vm()
-                        match_result = vm_regex.search(s, pos)
-                        if match_result is None:
-                            break
-
-                        # Add the part before this match
-                        result_parts.append(s[last_end : match_result.index])
-                        # Add the replacement
-                        result_parts.append(handle_replacement(match_result))
-
-                        # Move past the match
-                        match_len = len(match_result[0]) if match_result[0] else 0
-                        last_end = match_result.index + match_len
-                        pos = last_end if match_len > 0 else match_result.index + 1
-
-                        if not is_global:
-                            break
-
-                    # Add remainder after last match
-                    result_parts.append(s[last_end:])
-                    return "".join(result_parts)
-                except RegexTimeoutError:
-                    raise TimeLimitError("Regex execution timeout")
+        def replace_regexp(regexp, replacer):
+            if "g" in regexp._flags:
+                matches = all_matches(regexp)
             else:
-                # String replace - only replace first occurrence
-                search = to_string(pattern)
-                # Handle special replacement patterns
-                repl = replacement
-                if "$$" in repl:
-                    repl = repl.replace("$$", "\x00DOLLAR\x00")
-                if "$&" in repl:
-                    repl = repl.replace("$&", search)
-                repl = repl.replace("\x00DOLLAR\x00", "$")
-                # Find first occurrence and replace
-                idx = s.find(search)
-                if idx >= 0:
-                    return s[:idx] + repl + s[idx + len(search) :]
-                return s
+                # One RegExpExec: only a sticky regexp looks at (and updates) lastIndex
+                result = regexp.exec_match(s)
+                matches = [] if result is None else [result]
+            pieces = []
+            last_end = 0
+            for result in matches:
+                if result.index < last_end:
+                    continue
+                pieces.append(s[last_end : result.index])
+                pieces.append(
+                    replacement_for(
+                        replacer, result[0], result.index, captures_of(result, regexp)
+                    )
+                )
+                last_end = result.index + len(result[0])
+            pieces.append(s[last_end:])
+            return "".join(pieces)
+
+        def replace_string(search, replacer, every):
+            positions = []
+            step = max(len(search), 1)
+            pos = s.find(search, 0)
+            while pos != -1:
+                positions.append(pos)
+                if not every:
+                    break
+                pos = s.find(search, pos + step) if pos + step <= length else -1
+            pieces = []
+            last_end = 0
+            for pos in positions:
+                pieces.append(s[last_end:pos])
+                pieces.append(replacement_for(replacer, search, pos, []))
+                last_end = pos + len(search)
+            pieces.append(s[last_end:])
+            return "".join(pieces)
+
+        def replace(*args):
+            pattern = arg(args, 0)
+            replacer = as_replacer(arg(args, 1))
+            if isinstance(pattern, JSRegExp):
+                return replace_regexp(pattern, replacer)
+            return replace_string(to_string(pattern), replacer, False)
 
         def replaceAll(*args):
-            pattern = args[0] if args else ""
-            replacement = to_string(args[1]) if len(args) > 1 else "undefined"
-
+            pattern = arg(args, 0)
+            replacer = as_replacer(arg(args, 1))
             if isinstance(pattern, JSRegExp):
                 # replaceAll with regex requires global flag
                 if "g" not in pattern._flags:
                     raise JSTypeError("replaceAll called with a non-global RegExp")
-                return replace(pattern, replacement)
-            else:
-                # String replaceAll - replace all occurrences
-                search = to_string(pattern)
-                # Handle special replacement patterns
-                if "$$" in replacement:
-                    # $$ -> $ (must be done before other replacements)
-                    replacement = replacement.replace("$$", "\x00DOLLAR\x00")
-                if "$&" in replacement:
-                    # $& -> the matched substring
-                    replacement = replacement.replace("$&", search)
-                replacement = replacement.replace("\x00DOLLAR\x00", "$")
-                return s.replace(search, replacement)
+                return replace_regexp(pattern, replacer)
+            return replace_string(to_string(pattern), replacer, True)
 
         def match(*args):
-            pattern = args[0] if args else None
-            if pattern is None:
-                # Match empty string
-                arr = JSArray()
-                arr._elements = [""]
-                arr.set("index", 0)
-                arr.set("input", s)
-                return arr
-
-            from .values import compile_regexp
-
-            if isinstance(pattern, JSRegExp):
-                regex_internal = pattern._internal
-                is_global = "g" in pattern._flags
-            else:
-                # Convert string to regex using microjs.regex
-                # Create a poll_callback if the VM has time limits
-                poll_callback = None
-                if self.time_limit is not None:
-                    poll_callback = (
-                        lambda: time.monotonic() - self.start_time > self.time_limit
-                    )
-                regex_internal = compile_regexp(to_string(pattern), "", poll_callback)
-                is_global = False
-
-            try:
-                if is_global:
-                    # Global flag: return all matches without groups
-                    matches = []
-                    pos = 0
-                    while pos <= len(s):
-                        # Create fresh regex VM for each search
-                        vm_regex = regex_internal._create_vm()
-                        result = vm_regex.search(s, pos)
-                        if result is None:
-                            break
-                        matches.append(result[0])
-                        # Advance position
-                        match_len = len(result[0]) if result[0] else 0
-                        pos = (
-                            result.index + match_len
-                            if match_len > 0
-                            else result.index + 1
-                        )
-
-                    if not matches:
-                        return NULL
-                    arr = JSArray()
-                    arr._elements = list(matches)
-                    return arr
-                else:
-                    # Non-global: return first match with groups
-                    vm_regex = regex_internal._create_vm()
-                    result = vm_regex.search(s, 0)
-                    if result is None:
-                        return NULL
-                    arr = JSArray()
-                    arr._elements = [result[0]]
-                    # Add captured groups (capture_count includes group 0, so iterate 1 to capture_count-1)
-                    capture_count = regex_internal._capture_count
-                    for i in range(1, capture_count):
-                        group_val = result[i]
-                        if group_val is None:
-                            arr._elements.append(UNDEFINED)
-                        else:
-                            arr._elements.append(group_val)
-                    arr.set("index", result.index)
-                    arr.set("input", s)
-                    return arr
-            except RegexTimeoutError:
-                raise TimeLimitError("Regex execution timeout")
+            regexp = regexp_of(arg(args, 0))
+            if "g" not in regexp._flags:
+                return regexp.exec(s)
+            matches = all_matches(regexp)
+            if not matches:
+                return NULL
+            arr = JSArray()
+            arr._elements = [result[0] for result in matches]
+            return arr
 
         def search(*args):
-            pattern = args[0] if args else None
-            if pattern is None:
-                return 0  # Match empty string at start
-
-            from .values import compile_regexp
-
-            if isinstance(pattern, JSRegExp):
-                regex_internal = pattern._internal
-            else:
-                # Convert string to regex using microjs.regex
-                poll_callback = None
-                if self.time_limit is not None:
-                    poll_callback = (
-                        lambda: time.monotonic() - self.start_time > self.time_limit
-                    )
-                regex_internal = compile_regexp(to_string(pattern), "", poll_callback)
-
-            try:
-                vm_regex = regex_internal._create_vm()
-                result = vm_regex.search(s, 0)
-                return result.index if result else -1
-            except RegexTimeoutError:
-                raise TimeLimitError("Regex execution timeout")
+            regexp = regexp_of(arg(args, 0))
+            # Search from the start whatever lastIndex says, and leave lastIndex alone
+            result = match_at(regexp, 0, "y" in regexp._flags)
+            return result.index if result else -1
 
         def toString(*args):
             return s
